@@ -27,6 +27,10 @@ def smt_text(decls: Decls, ob: Obligation, negate=True, observe=None) -> str:
     for name, d in decls.funs.items():
         if name in used:
             out.append(d)
+    for ax in getattr(decls, "axioms", []):
+        toks = set(_TOKEN.findall(ax))
+        if all((t not in decls.funs) or (t in used) for t in toks):
+            out.append(f"(assert {ax})")
     lits = [t.s for t in decls.str_lits.values() if t.s in used]
     if len(lits) > 1:
         out.append("(assert (distinct " + " ".join(lits) + "))")
